@@ -12,8 +12,8 @@ HARNESS = os.path.join(BUILD, 'cargo-target', 'debug', 'harness')
 HARNESS_REL = os.path.join(BUILD, 'cargo-target', 'release', 'harness')
 DRIVER = os.path.join(BUILD, 'ocaml', 'driver')
 WORK = os.path.join(BUILD, 'work')
-REPLAYS = os.path.join(VERIF, 'replays')
-EVIDENCE = os.path.join(VERIF, 'evidence')
+REPLAYS = os.environ.get('VERIF_REPLAY_DIR', os.path.join(VERIF, 'replays'))
+EVIDENCE = os.environ.get('VERIF_EVIDENCE_DIR', os.path.join(VERIF, 'evidence'))   # trials against seeded changes redirect these
 GUARD = '--cfg abyssiniandb_verif'
 ENV = dict(os.environ, CARGO_NET_OFFLINE='true', RUSTFLAGS=GUARD)
 
